@@ -62,6 +62,12 @@ Theorem C08_domain_sharding :
 Proof. exact ldom_split_at. Qed.
 Print Assumptions C08_domain_sharding.
 
+Theorem C08_domain_recut :
+  forall pre (P : list N -> Prop) l l' rs,
+    l = l' -> (forall vs, in_ldom (pre ++ l' :: rs) vs -> P vs) -> forall vs, in_ldom (pre ++ l :: rs) vs -> P vs.
+Proof. exact ldom_recut. Qed.
+Print Assumptions C08_domain_recut.
+
 Theorem C08_union_of_products :
   forall (P : list N -> Prop) d ds,
     (forall vs, in_ldom d vs -> P vs) -> (forall vs, in_udom ds vs -> P vs) -> forall vs, in_udom (d :: ds) vs -> P vs.
